@@ -210,7 +210,7 @@ Poll(s) ==
      IN
      CASE r.pc = "rdy" -> Finish(r.res, IF r.res = "PacketIdInUse" THEN r.id ELSE 0)
        [] r.pc = "lazy" ->
-            IF closed /\ kind \in {"sub", "unsub"} THEN Finish("Disconnected", 0)
+            IF closed THEN Finish("Disconnected", 0)
             ELSE IF NotReady THEN Park
             ELSE Proceed(sd)
        [] r.pc = "parked" ->
@@ -219,8 +219,10 @@ Poll(s) ==
                    /\ UNCHANGED <<sd, inflight, ids, waiters, nextId, owedP>>
                [] r.w = "cancel" -> Finish("Disconnected", 0)
                [] r.w = "ok" ->
-                   \* Waiter: notified, the slot may have been taken meanwhile -> queue again
-                   IF NotReady THEN Park
+                   \* Waiter: notified; connection gone -> Disconnected; the slot may have been
+                   \* taken meanwhile -> queue again
+                   IF closed THEN Finish("Disconnected", 0)
+                   ELSE IF NotReady THEN Park
                    ELSE IF kind = "ready"
                      THEN \* readiness does not use a slot: pass the notification on
                           LET w == WakeIfFree(waiters, [sd EXCEPT ![s].pc = "done"], inflight, received) IN
